@@ -1021,7 +1021,7 @@ package goatlang
 //@   callsite#fixed callReady: forall j int :: 0 <= j && j < old(len(v.stack)) - (old(xArgs) - ft.Args + 1) ==> v.stack[j] == old(v.stack[j])
 //@   callsite#packedlen callReady: ft.Variadic ==> len(v.stack) == old(len(v.stack)) - (old(xArgs) - ft.Args + 1) + 1 && arg_xArgs == ft.Args
 //@   callsite#packedtype callReady: ft.Variadic ==> is(top(v, 0).value, *sliceT) && as(top(v, 0).value, *sliceT).valueType == ft.VariadicType.value() && top(v, 0).t == sliceType(ft.VariadicType.value())
-//@   callsite#packedorder callReady: ft.Variadic ==> len(as(top(v, 0).value, *sliceT).data) == old(xArgs) - ft.Args + 1 && (forall j int :: 0 <= j && j < old(xArgs) - ft.Args + 1 ==> as(top(v, 0).value, *sliceT).data[j] == old(v.stack[len(v.stack) - (xArgs - ft.Args + 1) + j]).assign(ft.VariadicType.value()))
+//@   callsite#packedorder @C09 @C04 callReady: ft.Variadic ==> len(as(top(v, 0).value, *sliceT).data) == old(xArgs) - ft.Args + 1 && (forall j int :: 0 <= j && j < old(xArgs) - ft.Args + 1 ==> as(top(v, 0).value, *sliceT).data[j] == old(v.stack[len(v.stack) - (xArgs - ft.Args + 1) + j]).assign(ft.VariadicType.value()))
 
 // ---------------------------------------------------------------------------------------------
 // Container dispatchers used by the instruction set. Frame part: they never touch the VM object,
